@@ -102,6 +102,13 @@ fn run_case(scratch: &Scratch, idx: usize, case: &Case, seed: u64, st: &mut Stat
                     st.machinery.push(format!("model reports schedule dependence without uncovered reads: {} {}", case.label, tok));
                 }
             }
+        } else if k.starts_with("sidecond_") {
+            // the decidable side conditions of C07_instance_stable / C01_generics_closed on this graph
+            if v == "1" { st.analyses_checked += 1; } else {
+                st.corr_fail.push(format!(
+                    "{{\"class\":\"side-condition\",\"analysis\":{},\"diff\":\"the dependency table of the model's instance does not cover what its rules read\",\"label\":{},\"flags\":{},\"header\":{}}}",
+                    json_str(k), json_str(&case.label), json_str(&case.flags.join(" ")), json_str(case.header_text.as_deref().unwrap_or(""))));
+            }
         } else if k.starts_with("closed_") || k.starts_with("nodes_") {
         } else if v.starts_with("DIFF") {
             st.corr_fail.push(format!(
